@@ -302,17 +302,23 @@ Definition item_key (i : item) : qname :=
      name in the current workspace: finding F26),
    - is an INHERITS list resolved in the package that wrote it (or in the package of whoever walks the
      chain: finding F27),
-   - do the reference fields of a workspace descriptor keep their targets (or lose them, unchecked: F29).
+   - do the reference fields of a workspace descriptor keep their targets (or lose them, unchecked: F29),
+   - are the nested tables of an inherited item list named in the package that declared them (or in the
+     heir's package, a phantom copy: F30),
+   - is a workspace reached twice below one direct ancestor just an ancestor (or a "circular reference": F31),
+   - may a GRANT name an inherited column (or only the table's own ones: F32).
    `Ideal` is the spec; `Go` is the compiler as it is: every flag is read off the source by
    translator/parts/c17.py (Gen/Params.v); `GoBefore` is the compiler before all the repairs (kept for
    the conditional refutations). *)
 Record mode := Mode { m_uniq_per_type : bool; m_nested_inherit : bool; m_view_refs : bool; m_acl_repeat : bool;
-                      m_res_pkg : bool; m_res_inh : bool; m_desc_refs : bool }.
-Definition Ideal : mode := Mode true true true false true true true.
+                      m_res_pkg : bool; m_res_inh : bool; m_desc_refs : bool;
+                      m_nested_pkg : bool; m_diamond : bool; m_grant_inh : bool }.
+Definition Ideal : mode := Mode true true true false true true true true true true.
 Definition Go : mode := Mode parser_uniques_numbered_per_type parser_nested_tables_inherit parser_view_refs_recorded
                              (negb parser_inherited_grants_once) parser_lookup_respects_package parser_inherits_in_own_package
-                             parser_descriptor_refs_analysed.
-Definition GoBefore : mode := Mode false false false true false false false.
+                             parser_descriptor_refs_analysed
+                             parser_inherited_nested_in_own_package parser_diamond_below_heir_accepted parser_grant_inherited_columns.
+Definition GoBefore : mode := Mode false false false true false false false false false false.
 
 Record pchecks := PChecks { ck_view_pk : bool; ck_grant_class : bool }.
 
@@ -773,7 +779,10 @@ Definition inh_ok (p : pkg) (w : ws) (t : table) : bool :=
   end.
 Definition chain_lists_ok (pn : ident) (ls : list ilist) : bool :=
   nodup_b String.eqb (flat_map (fun l => titem_names (snd l)) ls)
-  && forallb (fun l => (fst l =? pn) || negb (ilist_has_nested l)) ls.
+  && true.
+(* the shape finding F30 was about: an item list inherited from another package holds nested tables *)
+Definition chain_lists_local (pn : ident) (ls : list ilist) : bool :=
+  forallb (fun l => (fst l =? pn) || negb (ilist_has_nested l)) ls.
 
 Definition nested_ok (p : pkg) (w : ws) (k : tkind) (t' : table) : bool :=
   negb (t_abstract t')
@@ -879,6 +888,17 @@ Definition table_cols (p : pkg) (w : ws) (q : qname) : list ident :=
                                               then flat_map (fun it => match it with TField f => [f_name f] | TRef n _ _ => [n] | _ => [] end) (t_items t)
                                               else []) (all_tables_ws (snd pw))
                       else []) (vis_ws p w).
+(* the same with the fields the table inherits *)
+Definition table_cols_all (p : pkg) (w : ws) (q : qname) : list ident :=
+  flat_map (fun pw => if p_name (fst pw) =? fst q
+                      then flat_map (fun t => if t_name t =? snd q
+                                              then match t_inh t, chain fuel0 (p_name (fst pw)) t with
+                                                   | Some _, Some (_, ls) =>
+                                                     flat_map (fun l => flat_map (fun it => match it with TField f => [f_name f] | TRef n _ _ => [n] | _ => [] end) (snd l)) ls
+                                                   | _, _ => flat_map (fun it => match it with TField f => [f_name f] | TRef n _ _ => [n] | _ => [] end) (t_items t)
+                                                   end
+                                              else []) (all_tables_ws (snd pw))
+                      else []) (vis_ws p w).
 Definition view_cols (p : pkg) (w : ws) (q : qname) : list ident :=
   flat_map (fun pw => if p_name (fst pw) =? fst q
                       then flat_map (fun i => match i with IView v => if v_name v =? snd q then map vitem_name (v_items v) else [] | _ => [] end) (w_items (snd pw))
@@ -898,11 +918,11 @@ Definition grant_ok (p : pkg) (w : ws) (g : grant) : bool :=
      | GAllTables None => negb (w_abstract w) || local_nonempty s_tables w
      | GAllTables (Some acts) => (negb (w_abstract w) || local_nonempty s_tables w)
                                  && negb (match acts with [] => true | _ => false end) && forallb (fun o => mem_op o record_ops) acts
-     | GTableAll t cols => in_scope p w s_tables (resolve pn t) && forallb (fun c => mem_s c (table_cols p w (resolve pn t))) cols
+     | GTableAll t cols => in_scope p w s_tables (resolve pn t) && forallb (fun c => mem_s c (table_cols_all p w (resolve pn t))) cols
      | GTable t acts =>
        in_scope p w s_tables (resolve pn t) && negb (match acts with [] => true | _ => false end)
        && forallb (fun x => mem_op (fst x) record_ops
-                            && forallb (fun c => mem_s c (table_cols p w (resolve pn t)) || mem_s c sys_cols) (snd x)) acts
+                            && forallb (fun c => mem_s c (table_cols_all p w (resolve pn t)) || mem_s c sys_cols) (snd x)) acts
      end.
 
 Fixpoint grants_before_revokes (seen_revoke : bool) (l : list wsitem) : bool :=
@@ -944,15 +964,6 @@ Definition ws_ok (p : pkg) (w : ws) : bool :=
   match ws_anc fuelw (p_name p) (w_inh w) with Some _ => true | None => false end
   && forallb (fun q => let r := resolve (p_name p) q in (fst r =? p_name p) || mem_s (fst r) (pkgs_after a (p_name p))) (w_inh w)
   && forallb (fun q => match lookup_ws (resolve (p_name p) q) with Some (_, w') => w_abstract w' | None => false end) (w_inh w)
-  (* checkChain keeps every INHERITS reference it has walked below one direct ancestor and calls a
-     second visit "circular": below each direct ancestor no workspace that itself INHERITS may be
-     reachable along two paths (a diamond is refused as soon as it has an heir) *)
-  && forallb (fun q => match ws_anc fuelw (p_name p) [q] with
-                       | Some l => nodup_b qname_eqb (filter (fun x => match lookup_ws x with
-                                                                       | Some (_, w') => negb (match w_inh w' with [] => true | _ => false end)
-                                                                       | None => false end) l)
-                       | None => false
-                       end) (w_inh w)
   && (negb (w_abstract w) || match w_desc w with None => true | Some _ => false end)
   && match w_desc w with Some fs => forallb (ditem_ok p w) fs && nodup_b String.eqb (map d_name fs) | None => true end
   && grants_before_revokes false (w_items w)
@@ -1009,11 +1020,11 @@ Definition grant_ok_p (ck : pchecks) (p : pkg) (w : ws) (g : grant) : bool :=
      | GAllTables None => negb (ck_grant_class ck) || negb (w_abstract w) || local_nonempty s_tables w
      | GAllTables (Some acts) => (negb (ck_grant_class ck) || negb (w_abstract w) || local_nonempty s_tables w)
                                  && negb (match acts with [] => true | _ => false end) && forallb (fun o => mem_op o record_ops) acts
-     | GTableAll t cols => in_scope p w s_tables (resolve pn t) && forallb (fun c => mem_s c (table_cols p w (resolve pn t))) cols
+     | GTableAll t cols => in_scope p w s_tables (resolve pn t) && forallb (fun c => mem_s c (table_cols_all p w (resolve pn t))) cols
      | GTable t acts =>
        in_scope p w s_tables (resolve pn t) && negb (match acts with [] => true | _ => false end)
        && forallb (fun x => mem_op (fst x) record_ops
-                            && forallb (fun c => mem_s c (table_cols p w (resolve pn t)) || mem_s c sys_cols) (snd x)) acts
+                            && forallb (fun c => mem_s c (table_cols_all p w (resolve pn t)) || mem_s c sys_cols) (snd x)) acts
      end.
 
 
@@ -1037,15 +1048,6 @@ Definition ws_ok_p (ck : pchecks) (p : pkg) (w : ws) : bool :=
   match ws_anc fuelw (p_name p) (w_inh w) with Some _ => true | None => false end
   && forallb (fun q => let r := resolve (p_name p) q in (fst r =? p_name p) || mem_s (fst r) (pkgs_after a (p_name p))) (w_inh w)
   && forallb (fun q => match lookup_ws (resolve (p_name p) q) with Some (_, w') => w_abstract w' | None => false end) (w_inh w)
-  (* checkChain keeps every INHERITS reference it has walked below one direct ancestor and calls a
-     second visit "circular": below each direct ancestor no workspace that itself INHERITS may be
-     reachable along two paths (a diamond is refused as soon as it has an heir) *)
-  && forallb (fun q => match ws_anc fuelw (p_name p) [q] with
-                       | Some l => nodup_b qname_eqb (filter (fun x => match lookup_ws x with
-                                                                       | Some (_, w') => negb (match w_inh w' with [] => true | _ => false end)
-                                                                       | None => false end) l)
-                       | None => false
-                       end) (w_inh w)
   && (negb (w_abstract w) || match w_desc w with None => true | Some _ => false end)
   && match w_desc w with Some fs => forallb (ditem_ok p w) fs && nodup_b String.eqb (map d_name fs) | None => true end
   && grants_before_revokes false (w_items w)
@@ -1084,7 +1086,31 @@ Definition inh_qualified (t : table) : bool := match t_inh t with Some q => negb
 Definition inherits_qualified : bool :=
   forallb (fun pw => forallb (fun q => negb (qr_pkg q =? "")) (w_inh (snd pw))
                      && forallb inh_qualified (all_tables_ws (snd pw))) all_ws.
-Definition resolves_like_spec (m : mode) : bool := (m_res_pkg m || names_distinct) && (m_res_inh m || inherits_qualified).
+(* three more shapes of the same kind, findings F30, F31, F32: a well-formed schema on which the compiler
+   added a phantom nested table / refused a diamond of workspaces below an heir / refused a GRANT on an
+   inherited column *)
+Definition no_foreign_nested : bool :=
+  forallb (fun pw => forallb (fun t => match t_inh t, chain fuel0 (p_name (fst pw)) t with
+                                       | Some _, Some (_, ls) => chain_lists_local (p_name (fst pw)) ls
+                                       | _, _ => true end) (all_tables_ws (snd pw))) all_ws.
+Definition no_diamond_below : bool :=
+  forallb (fun pw => forallb (fun q => match ws_anc fuelw (p_name (fst pw)) [q] with
+                       | Some l => nodup_b qname_eqb (filter (fun x => match lookup_ws x with
+                                                                       | Some (_, w') => negb (match w_inh w' with [] => true | _ => false end)
+                                                                       | None => false end) l)
+                       | None => true
+                       end) (w_inh (snd pw))) all_ws.
+Definition grant_cols_own : bool :=
+  forallb (fun pw => let p := fst pw in let w := snd pw in let pn := p_name p in
+     forallb (fun i => match i with
+                       | IGrant g => match g_what g with
+                                     | GTableAll t cols => forallb (fun c => mem_s c (table_cols p w (resolve pn t))) cols
+                                     | GTable t acts => forallb (fun x => forallb (fun c => mem_s c (table_cols p w (resolve pn t)) || mem_s c sys_cols) (snd x)) acts
+                                     | _ => true end
+                       | _ => true end) (w_items w)) all_ws.
+Definition resolves_like_spec (m : mode) : bool :=
+  (m_res_pkg m || names_distinct) && (m_res_inh m || inherits_qualified)
+  && (m_nested_pkg m || no_foreign_nested) && (m_diamond m || no_diamond_below) && (m_grant_inh m || grant_cols_own).
 
 (* no workspace that is inherited holds grants or revokes (the shape finding F28 was about) *)
 Definition no_inherited_acl : bool :=
